@@ -1,4 +1,5 @@
 import DirectVerif.Model.Pipeline
+import DirectVerif.Model.PipelinePrePost
 /-!
 # C08 helper lemmas — list normal form of the builder
 
@@ -48,5 +49,12 @@ theorem buildSupervised_nf (c : Config) : buildSupervised c = buildSupervisedNF 
 theorem build_nf (c : Config) : build c = buildNF c := by
   simp only [build, buildNF, buildSupervised_nf, List.append_assoc, List.cons_append, List.nil_append,
     List.append_nil]
+
+/-- the second builder pair (phase 3) -/
+theorem buildPreNF_eq (c : Config) : buildPre c = buildPreNF c := by
+  simp only [buildPre, buildPreNF, List.append_assoc, List.cons_append, List.nil_append, List.append_nil]
+
+theorem buildPostNF_eq (c : Config) : buildPost c = buildPostNF c := by
+  simp only [buildPost, buildPostNF, List.append_assoc, List.cons_append, List.nil_append, List.append_nil]
 
 end DirectVerif.Pipeline
